@@ -545,6 +545,10 @@ def fam_load(rng):
                                 P("N2", "t9", 5), P("N2", "t5", 6), P("N1", "t7", 7), D("N1", 6), D("N2", 7),
                                 {"op": "craft", "s": "N3", "t": "t8", "l": 2, "r": 2, "w": 2, "id": 8}, D("N2", 8),
                                 {"op": "craft", "s": "N2", "t": "t7", "l": 2, "r": 2, "w": 2, "id": 9}, D("N2", 9), D("N1", 9)]))
+    # a gossiped vertex and a proposal that arrive while the stream is still coming in (also issued by the genesis wallet)
+    for t, v in (("t3", 3), ("t2", 2), ("t1", 3)):
+        out.append(("twosingle", 2, shapes[1] + [{"op": "load", "m": "N2", "n": "N1", "kind": "during", "v": v, "t": t},
+                                                 {"op": "compare", "n": "N1", "m": "N2"}, D("N2", v), P("N2", t, 0)]))
     # loading twice
     out.append(("twosingle", 2, shapes[0] + [{"op": "load", "m": "N2", "n": "N1"}, {"op": "load", "m": "N2", "n": "N1"}]))
     # source that has truncated
